@@ -1,2 +1,84 @@
-(** C03 — placeholder while the proofs are being written. *)
-From Coq Require Import List.
+(** C03 — updating a view in place gives the same DOM as rendering it fresh.
+    Statements only; proofs live in Dom/ViewProofs.v, Dom/ViewTop.v (model: Dom/View.v).
+    [cv v] is what a fresh render of [v] shows (node identity forgotten), [cs s] what the
+    state [s] shows; [mounted pre post s w]: the parent's children are
+    [pre ++ nodes of s ++ post] without repetition.  [okv v] = KnownClass_C03 does not apply:
+    no StaticVec (F-C03-ab), no active [class:on] toggle (F-C03-c), no empty tuple.
+    All theorems are for arbitrary sibling contexts, nesting depth and histories. *)
+From Coq Require Import List NArith.
+From LV Require Import Dom.Dom Dom.View Dom.ViewProofs Dom.ViewTop.
+Import ListNotations.
+
+(** a fresh render (build + mount between the siblings) shows [cv v] *)
+Theorem C03_render_fresh_ok :
+  forall (pre post : list N) (v : view) (n : N),
+    okv v -> NoDup (pre ++ post) -> (forall x, In x (pre ++ post) -> (x < n)%N) ->
+    let '(s, w) := render_fresh pre post v n in mounted pre post s w /\ cs s = cv v.
+Proof. exact render_fresh_ok. Qed.
+Print Assumptions C03_render_fresh_ok.
+
+(** rebuilding any mounted state (whatever history produced it) with a value [v] — of the
+    same or of a different shape, i.e. including AnyView type changes, Either/Option
+    switches, Vec growth and shrinkage, attribute changes — leaves the siblings untouched
+    and shows exactly what a fresh render of [v] shows; no panic.  This is
+    [rebuild_eq_fresh] outside the known classes. *)
+Theorem C03_rebuild_eq_fresh_except_known :
+  forall (pre post : list N) (s : st) (w : rw) (v : view),
+    mounted pre post s w -> okv v ->
+    let '(s', w') := rebuild_any v s w in mounted pre post s' w' /\ cs s' = cv v.
+Proof. exact rebuild_eq_fresh. Qed.
+Print Assumptions C03_rebuild_eq_fresh_except_known.
+
+(** any sequence of rebuilds ends showing the last value *)
+Theorem C03_rebuild_seq_eq_fresh :
+  forall (vs : list view) (pre post : list N) (s : st) (w : rw) (v0 : view),
+    mounted pre post s w -> cs s = cv v0 -> all_ok vs ->
+    let '(s', w') := rebuild_seq vs s w in mounted pre post s' w' /\ cs s' = cv (last vs v0).
+Proof. exact rebuild_seq_eq_fresh. Qed.
+Print Assumptions C03_rebuild_seq_eq_fresh.
+
+(** unmounting removes exactly the nodes the view added *)
+Theorem C03_unmount_removes_exactly :
+  forall (pre post : list N) (s : st) (w : rw),
+    mounted pre post s w -> unmount_st s (r_dom w) = pre ++ post.
+Proof. exact unmount_removes_exactly. Qed.
+Print Assumptions C03_unmount_removes_exactly.
+
+(** a rebuild with a value of the same shape keeps the node(s) at the root of the state *)
+Theorem C03_retained_nodes_kept :
+  forall (v : view) (s : st) (w : rw) (s' : st) (w' : rw),
+    rebuild_any v s w = (s', w') -> tcode_eqb (tc_view v) (tc_st s) = true ->
+    match s with
+    | SText id _ | SUnit id | SEl id _ _ _ _ _ => ids s' = [id]
+    | SVec _ mk => exists l, ids s' = l ++ [mk]
+    | _ => True
+    end.
+Proof. exact retained_nodes_kept. Qed.
+Print Assumptions C03_retained_nodes_kept.
+
+(** the general statement is refuted on the code as it is — F-C03-a: replacing an empty
+    StaticVec loses the new content (the parent stays empty) *)
+Theorem C03_rebuild_eq_fresh_refuted_static_empty :
+  let '(s, w) := render_fresh [] [] (VEither false (VStatic [])) 0 in
+  let '(s', w') := rebuild_any (VEither true (VText [104; 105]%N)) s w in
+  r_dom w' = [] /\ ids s' = [0%N].
+Proof. exact refuted_static_empty. Qed.
+Print Assumptions C03_rebuild_eq_fresh_refuted_static_empty.
+
+(** F-C03-b: a rebuilt StaticVec lands after its following sibling *)
+Theorem C03_rebuild_eq_fresh_refuted_static_after_sibling :
+  let '(s, w) := render_fresh [0%N] [1%N] (VStatic [VText [97%N]]) 2 in
+  let '(s', w') := rebuild_any (VStatic [VText [98%N]]) s w in
+  r_dom w = [0; 2; 1]%N /\ r_dom w' = [0; 1; 3]%N /\ ids s' = [3%N].
+Proof. exact refuted_static_after_sibling. Qed.
+Print Assumptions C03_rebuild_eq_fresh_refuted_static_after_sibling.
+
+(** F-C03-c: rebuilding an element with the very same attributes drops the class of an
+    unchanged [class:on] toggle *)
+Theorem C03_rebuild_eq_fresh_refuted_class_toggle :
+  let a := {| va_id := None; va_hidden := false; va_class := [97%N]; va_on := true; va_color := [114%N] |} in
+  let '(s, w) := render_fresh [] [] (VEl 0 a VUnit) 0 in
+  let '(s', w') := rebuild_any (VEl 0 a VUnit) s w in
+  cs s = cv (VEl 0 a VUnit) /\ cs s' <> cv (VEl 0 a VUnit).
+Proof. exact refuted_class_toggle. Qed.
+Print Assumptions C03_rebuild_eq_fresh_refuted_class_toggle.
